@@ -67,6 +67,19 @@ CHECKS = {
    design="7/C19", technique="Coq invariant proofs over a fold + bit-exact differential tie + independent oracle"),
 }
 import json as _json
+ENGINE = {}
+for _pid in ("C07", "C17", "C18"):
+    try:
+        _e = _json.load(open(os.path.join(V, "notes", _pid.lower() + "-manifest.json")))
+        _e = _e.get(_pid, _e)
+        _lc = _e.get("level_claimed", {})
+        CHECKS[_pid] = dict(text=_lc.get("text") or _e["text"], note=_e.get("level_note") or _e.get("note"),
+                            design=(_lc.get("design_ref", "") or "").replace("DESIGN.md section ", "") or "7/" + _pid,
+                            technique=_e["technique"])
+        if _e.get("engine"):
+            ENGINE[_pid] = _e["engine"]
+    except Exception as _ex:
+        pass
 for _pid, _f, _key in (("C12", "notes/c12_proposals.json", "manifest_check"), ("C08", "notes/C08-manifest.json", None)):
     try:
         _d = _json.load(open(os.path.join(V, _f)))
@@ -91,7 +104,7 @@ def main():
             thorough_cmd="python3 tools/check.py %s --tier thorough" % pid,
             evidence_file="/verif/evidence/%s.json" % pid,
             replay_cmd_template="python3 tools/check.py %s --replay {path}" % pid,
-            engine="coq+verifharness",
+            engine=ENGINE.get(pid, "coq+verifharness"),
             level_claimed=dict(category="proof", text=c["text"], design_ref="DESIGN.md section " + c["design"]),
             level_note=c["note"], technique=c["technique"]))
     na = list(NOT_APPLICABLE)
